@@ -38,7 +38,7 @@ PRE = '#include <stdbool.h>\n#include <osmocom/bb/trxcon/trx_if.h>\n'
 OFFS = ['sizeof(struct trx_instance)', 'offsetof(struct trx_instance, trx_ofd_ctrl)', 'offsetof(struct trx_instance, trx_ofd_data)', 'offsetof(struct trx_instance, trx_ctrl_list)',
         'offsetof(struct trx_instance, fi)', 'offsetof(struct trx_instance, fn_advance)', 'offsetof(struct trx_instance, prev_state)', 'offsetof(struct trx_instance, powered_up)', 'offsetof(struct trx_instance, priv)',
         'offsetof(struct osmo_fd, fd)', 'offsetof(struct osmo_fd, data)', 'sizeof(struct osmo_fd)', 'sizeof(struct trx_ctrl_msg)', 'offsetof(struct trx_ctrl_msg, cmd)', 'offsetof(struct trx_ctrl_msg, critical)',
-        'offsetof(struct trx_ctrl_msg, cmd_len)', 'offsetof(struct trx_ctrl_msg, retry_cnt)', 'sizeof(struct osmo_fsm_inst)', 'offsetof(struct osmo_fsm_inst, state)',
+        'offsetof(struct trx_ctrl_msg, cmd_len)', 'sizeof(((struct trx_ctrl_msg *)0)->cmd)', 'offsetof(struct trx_ctrl_msg, retry_cnt)', 'sizeof(struct osmo_fsm_inst)', 'offsetof(struct osmo_fsm_inst, state)',
         'offsetof(struct trxcon_phyif_burst_ind, fn)', 'offsetof(struct trxcon_phyif_burst_ind, tn)', 'offsetof(struct trxcon_phyif_burst_ind, toa256)', 'offsetof(struct trxcon_phyif_burst_ind, rssi)',
         'offsetof(struct trxcon_phyif_burst_ind, burst)', 'offsetof(struct trxcon_phyif_burst_ind, burst_len)', 'sizeof(struct trxcon_phyif_burst_req)', 'offsetof(struct trxcon_phyif_burst_req, fn)',
         'offsetof(struct trxcon_phyif_burst_req, tn)', 'offsetof(struct trxcon_phyif_burst_req, pwr)', 'offsetof(struct trxcon_phyif_burst_req, burst)', 'offsetof(struct trxcon_phyif_burst_req, burst_len)',
@@ -298,8 +298,12 @@ def c_setfh_compose(hid, band, n, timeout_ms=60000):
             for k, ch in enumerate(txt[:size - 1] + b'\0'): e.store(st, i8, C(ch), llsym._padd(dst, k), 'snprintf stub')
         return C(len(txt))
     composed = []
+    cmd_size = cjob.offsets(PRE, ['sizeof(((struct trx_ctrl_msg *)0)->cmd)'], INCS, defs=[])['sizeof(((struct trx_ctrl_msg *)0)->cmd)']
     def ctrl_cmd(e, st, a):
-        composed.append((st.guard, a[1].conc(), _cstr(e, st, a[2]), _cformat(e, st, _cstr(e, st, a[3]), a[4:]))); return C(0)
+        # trx_ctrl_cmd(): snprintf(cmd, size - 1, "CMD %s ", verb) then vsnprintf(cmd + len, size - len - 1, fmt, ...): both truncate
+        verb = _cstr(e, st, a[2]); head = ('CMD %s ' % verb)[:cmd_size - 2]
+        body = _cformat(e, st, _cstr(e, st, a[3]), a[4:])[:max(cmd_size - len(head) - 2, 0)]
+        composed.append((st.guard, a[1].conc(), verb, body)); return C(0)
     # reference band plan (3GPP TS 45.005): the real gsm_arfcn2freq10() of libosmocore is checked against it in C19's module build
     ex.stubs.update({'@snprintf': snprintf, '@trx_ctrl_cmd': ctrl_cmd, '@logp2': lambda e, st, a: C(0),
                      '@gsm_arfcn2freq10': lambda e, st, a: C(_freq10(a[0].conc(), a[1].conc()))})
